@@ -7,6 +7,7 @@ package podgen
 import (
 	"fmt"
 	"math/rand"
+	"strings"
 
 	corev1 "k8s.io/api/core/v1"
 	"k8s.io/apimachinery/pkg/api/resource"
@@ -453,6 +454,102 @@ func Enumerate() []Named {
 			}
 		}
 	}
+	// more cross products of settings that can mask one another within one control
+	avals := []string{"<nil>", "RuntimeDefault", "Localhost", "Unconfined"}
+	setAA := func(v string) *corev1.AppArmorProfile {
+		if v == "<nil>" {
+			return nil
+		}
+		return &corev1.AppArmorProfile{Type: corev1.AppArmorProfileType(v)}
+	}
+	for _, pv := range avals {
+		for _, cv := range avals {
+			for kind := 0; kind < 3; kind++ {
+				p := Base()
+				ensurePSC(p).AppArmorProfile = setAA(pv)
+				ensureSC(kindContainer(p, kind)).AppArmorProfile = setAA(cv)
+				out = append(out, Named{Desc: fmt.Sprintf("pair.apparmor pod=%s %s=%s", pv, kindNames[kind], cv), Pod: p})
+			}
+			for _, av := range []string{"runtime/default", "unconfined", "localhost/foo", "docker/default"} {
+				p := Base()
+				ensurePSC(p).AppArmorProfile = setAA(pv)
+				ensureSC(&p.Spec.Containers[0]).AppArmorProfile = setAA(cv)
+				if p.Annotations == nil {
+					p.Annotations = map[string]string{}
+				}
+				p.Annotations[AppArmorPrefix+p.Spec.Containers[0].Name] = av
+				out = append(out, Named{Desc: fmt.Sprintf("pair.apparmor pod=%s container=%s annotation=%s", pv, cv, av), Pod: p})
+			}
+		}
+	}
+	for _, pv := range []string{"<nil>", "RuntimeDefault", "Unconfined"} {
+		for _, pa := range []string{"<none>", "runtime/default", "unconfined"} {
+			for _, ca := range []string{"<none>", "runtime/default", "unconfined"} {
+				p := Base()
+				if pv == "<nil>" {
+					ensurePSC(p).SeccompProfile = nil
+				} else {
+					ensurePSC(p).SeccompProfile = &corev1.SeccompProfile{Type: corev1.SeccompProfileType(pv)}
+				}
+				if p.Annotations == nil {
+					p.Annotations = map[string]string{}
+				}
+				if pa != "<none>" {
+					p.Annotations["seccomp.security.alpha.kubernetes.io/pod"] = pa
+				}
+				if ca != "<none>" {
+					p.Annotations["container.seccomp.security.alpha.kubernetes.io/"+p.Spec.Containers[0].Name] = ca
+				}
+				out = append(out, Named{Desc: fmt.Sprintf("pair.seccomp pod=%s annotation.pod=%s annotation.container=%s", pv, pa, ca), Pod: p})
+			}
+		}
+	}
+	tvals := []string{"<nil>", "container_t", "spc_t"}
+	setSE := func(v string) *corev1.SELinuxOptions {
+		if v == "<nil>" {
+			return nil
+		}
+		return &corev1.SELinuxOptions{Type: v}
+	}
+	uvals := []*int64{nil, ip(0), ip(1000)}
+	for i, pv := range tvals {
+		for j, cv := range tvals {
+			for kind := 0; kind < 3; kind++ {
+				p := Base()
+				ensurePSC(p).SELinuxOptions = setSE(pv)
+				ensureSC(kindContainer(p, kind)).SELinuxOptions = setSE(cv)
+				out = append(out, Named{Desc: fmt.Sprintf("pair.selinux pod=%s %s=%s", pv, kindNames[kind], cv), Pod: p})
+				q := Base()
+				ensurePSC(q).RunAsUser = uvals[i]
+				ensureSC(kindContainer(q, kind)).RunAsUser = uvals[j]
+				out = append(out, Named{Desc: fmt.Sprintf("pair.runAsUser pod=%s %s=%s", fmtI(uvals[i]), kindNames[kind], fmtI(uvals[j])), Pod: q})
+			}
+		}
+	}
+	for _, addv := range [][]corev1.Capability{nil, {"NET_BIND_SERVICE"}, {"SYS_ADMIN"}, {"NET_BIND_SERVICE", "CHOWN"}} {
+		for _, dropv := range [][]corev1.Capability{nil, {"ALL"}, {"NET_RAW"}} {
+			for kind := 0; kind < 3; kind++ {
+				p := Base()
+				ensureSC(kindContainer(p, kind)).Capabilities = &corev1.Capabilities{Add: addv, Drop: dropv}
+				out = append(out, Named{Desc: fmt.Sprintf("pair.caps %s add=%v drop=%v", kindNames[kind], addv, dropv), Pod: p})
+			}
+		}
+	}
+	// two containers of one kind: the second must be judged like the first
+	for _, e := range ces {
+		p := Base()
+		extra := p.Spec.Containers[0].DeepCopy()
+		extra.Name = "second"
+		e.f(extra)
+		p.Spec.Containers = append(p.Spec.Containers, *extra)
+		out = append(out, Named{Desc: "base+container[1]." + e.name, Pod: p})
+		q := Base()
+		ex2 := q.Spec.EphemeralContainers[0].DeepCopy()
+		ex2.Name = "debug-first"
+		e.f((*corev1.Container)(&ex2.EphemeralContainerCommon))
+		q.Spec.EphemeralContainers = append([]corev1.EphemeralContainer{*ex2}, q.Spec.EphemeralContainers...)
+		out = append(out, Named{Desc: "base+ephemeral[0 of 2]." + e.name, Pod: q})
+	}
 	// windows base and its edits
 	out = append(out, Named{Desc: "windows", Pod: BaseWindows()})
 	for _, e := range ces {
@@ -476,6 +573,75 @@ func Enumerate() []Named {
 	// a pod with nothing at all, and one with no containers
 	out = append(out, Named{Desc: "empty", Pod: &corev1.Pod{ObjectMeta: metav1.ObjectMeta{Name: "empty"}}})
 	return out
+}
+
+// pairGroups: keywords that put edits of one control (at pod level, at container level, as annotation)
+// into one group; Pairs combines two edits of the same group, which is where one setting can mask another.
+var pairGroups = []string{"apparmor", "seccomp", "selinux", "caps", "runAsNonRoot", "runAsUser", "procMount", "priv", "hostPort", "sysctl", "hostProcess", "allowPrivilegeEscalation", "volume", "host"}
+
+type groupedEdit struct {
+	name string
+	pod  func(*corev1.Pod)
+	cont func(*corev1.Container)
+	mal  bool
+}
+
+var groupedEdits map[string][]groupedEdit
+
+func buildGroups() {
+	groupedEdits = map[string][]groupedEdit{}
+	for _, g := range pairGroups {
+		for _, e := range podEdits() {
+			if strings.Contains(strings.ToLower(e.name), strings.ToLower(g)) {
+				groupedEdits[g] = append(groupedEdits[g], groupedEdit{name: e.name, pod: e.f, mal: e.malformed})
+			}
+		}
+		for _, e := range containerEdits() {
+			if strings.Contains(strings.ToLower(e.name), strings.ToLower(g)) {
+				groupedEdits[g] = append(groupedEdits[g], groupedEdit{name: e.name, cont: e.f})
+			}
+		}
+	}
+}
+
+// Pairs: two edits of one control applied to the base pod (each container-level edit to a random
+// container kind), sometimes on top of an os / hostUsers setting.
+func Pairs(r *rand.Rand) Named {
+	if groupedEdits == nil {
+		buildGroups()
+	}
+	var g string
+	for {
+		g = pairGroups[r.Intn(len(pairGroups))]
+		if len(groupedEdits[g]) >= 2 {
+			break
+		}
+	}
+	p := Base()
+	desc := "pair[" + g + "]"
+	mal := false
+	switch r.Intn(8) {
+	case 0:
+		p.Spec.HostUsers = bp(false)
+		desc += " hostUsers=false"
+	case 1:
+		p.Spec.OS = &corev1.PodOS{Name: "linux"}
+		desc += " os=linux"
+	}
+	es := groupedEdits[g]
+	for k := 0; k < 2; k++ {
+		e := es[r.Intn(len(es))]
+		if e.pod != nil {
+			e.pod(p)
+			desc += " +" + e.name
+			mal = mal || e.mal
+		} else {
+			kind := r.Intn(3)
+			e.cont(kindContainer(p, kind))
+			desc += " +" + kindNames[kind] + "." + e.name
+		}
+	}
+	return Named{Desc: desc, Pod: p, Malformed: mal}
 }
 
 func pickS(r *rand.Rand, l []string) string { return l[r.Intn(len(l))] }
